@@ -21,6 +21,15 @@ EDGE = [
     'x, [5.., ..=2, 3]', 'x, [..5]', 'x, (.., 1)', 'x, Some(..)', 'x, #{ "k": .., .. }', 'x, S { r#type: 1, r#match.len(): 2, .. }',
     'x, E::V { r#fn: "s" }', 'x, _ { r#type: 1, .. }', 'x, _ { 4294967295: 1, .. }', 'x, S { a.4294967295: 1, .. }', 'x, (4294967295: 1)',
     'x, S { t.0.1: 1, t.1.0.2: 2, .. }', 'x, S { a: 1, }', 'x, S { a: 1, .., }', 'x, #(1, 2, ..,)', 'x, [1, 2,]', 'x, (1, 2,)', 'x, #{ "a": 1, }',
+    # nesting depth 10 of every composite (parsing a tuple / variant element is speculative: each level parses twice)
+    "x, " + "(" * 10 + "1, 2" + ",)" * 10,
+    "x, " + "Some(" * 10 + "> 1" + ")" * 10,
+    "x, " + "[" * 10 + "1, .." + "]" * 10,
+    "x, " + "#(" * 8 + "1, .." + ")" * 8,
+    "x, " + "S { a: " * 10 + "1" + ", .. }" * 10,
+    "x, " + "_ { a: " * 10 + "1" + ", .. }" * 10,
+    "x, " + '#{ "k": ' * 8 + "1" + ", .. }" * 8,
+    "x, " + "(0: " * 6 + "1" + ",)" * 6,
 ]
 
 
